@@ -130,7 +130,7 @@ func specsBase() []*Spec {
 				{Pkg: "extra/x25519", Job: "C15sched", Instr: "sched", Quick: []string{"default", "noasm"}, Thorough: []string{"default", "noasm", "force32bit", "appengine"}},
 				{Pkg: "extra/x25519", Job: "C15race", Race: true, Quick: []string{"default", "noasm"}, Thorough: []string{"default", "noasm", "force32bit", "appengine"}},
 			},
-			Rule:   "E2 histories: every sequence of <= 2 (thorough 3) calls over a 27-operation alphabet (Sign pure/ctx/ph, Verify good/bad, ZIP-215 small-order, VerifyBatch of 4 good / 4 with one bad / 5 / 65 / 3, GenerateKey, NewKeyFromSeed, X25519 base / generic / low-order, both key conversions, Equal), each history in a FRESH process: every call's result == its result alone in a fresh process; content hash of every package-level variable of the five packages (registered by generated code) unchanged after every call. E3 schedules: 190 two-thread scenarios (every unordered pair of operations), 12 (thorough 24) three-thread scenarios, 12 scenarios of 2 threads x 2 calls, on a build whose every statement touching a package-level variable is preceded by a scheduler hook: discovery run with per-access content hashing finds written variables; a variable written by one call and accessed by a concurrent call is a data race (the library has no synchronisation); preemption-bounded DFS (bound 2, thorough 3) over call boundaries and accesses to written variables, each schedule in a fresh process, oracle = solo results and unchanged global state; with no written variable all access events commute and the executed call orders represent every interleaving. Auxiliary: the same scenarios free-running under the Go race detector. distinct = history / scenario.",
+			Rule:   "E2 histories: every sequence of <= 2 (thorough 3) calls over a 29-operation alphabet (Sign pure/ctx/ph, Verify good/bad, ZIP-215 small-order, VerifyBatch of 4 good / 4 with one bad / 5 / 65 / 3, GenerateKey, NewKeyFromSeed, X25519 base / generic / low-order, both key conversions, Equal), each history in a FRESH process: every call's result == its result alone in a fresh process; content hash of every package-level variable of the five packages (registered by generated code) unchanged after every call. E3 schedules: 190 two-thread scenarios (every unordered pair of operations), 12 (thorough 24) three-thread scenarios, 12 scenarios of 2 threads x 2 calls, on a build whose every statement touching a package-level variable is preceded by a scheduler hook: discovery run with per-access content hashing finds written variables; a variable written by one call and accessed by a concurrent call is a data race (the library has no synchronisation); preemption-bounded DFS (bound 2, thorough 3) over call boundaries and accesses to written variables, each schedule in a fresh process, oracle = solo results and unchanged global state; with no written variable all access events commute and the executed call orders represent every interleaving. Auxiliary: the same scenarios free-running under the Go race detector. distinct = history / scenario.",
 			Assume: []string{"interleavings are explored at accesses to package-level variables (found by type-checking the current sources) and call boundaries; shared memory reached only through pointers smuggled into globals is seen by the content-hash invariant and the free-running race pass", "sequential consistency; the Go memory model's weaker orderings are not modelled"},
 		},
 		{
